@@ -15,4 +15,10 @@ theorem client_calls_once : Extracted.Runner.clientCalls =
 theorem client_fails_on_result_error :
     Extracted.Runner.skel_client_Evaluate = Expected.Runner.skel_client_Evaluate := rfl
 
+/-- one runner record per PROJECT target: `builtin_target` records every dependency — string or target object,
+    relative or absolute — as the `String()` of its resolved label, the same canonical key `Project.LoadTarget` and
+    `proj.targets` use (the runner keys its registry by the raw string it is given) -/
+theorem deps_recorded_canonically :
+    Extracted.Runner.skel_builtin_target_deps = Expected.Runner.skel_builtin_target_deps := rfl
+
 end Dawn.Ties.Runner
